@@ -12,7 +12,7 @@ package ipfslog
 //@ define inMap(m iface.IPFSLogOrderedEntries, e iface.IPFSLogEntry) = has(om(m).values, ehash(e)) && om(m).values[ehash(e)] == e
 // sepMaps: the three index maps of a log are distinct objects with distinct value maps (ownership)
 //@ define sepMaps(l *IPFSLog) = om(l.Entries) != om(l.heads) && om(l.Entries) != om(l.Next) && om(l.heads) != om(l.Next) && om(l.Entries).values != om(l.heads).values && om(l.Entries).values != om(l.Next).values && om(l.heads).values != om(l.Next).values
-//@ define logInv(l *IPFSLog) = l != nil && validEntries(l.Entries) && validEntries(l.heads) && isOM(l.Next) && sepMaps(l) && validClock(l.Clock) && l.Identity != nil && l.Clock.(*entry.LamportClock).ID == l.Identity.PublicKey && l.SortFn != nil && l.AccessController != nil && validAnyIO(l.io) && l.Storage != nil
+//@ define logInv(l *IPFSLog) = l != nil && validEntries(l.Entries) && validEntries(l.heads) && isOM(l.Next) && sepMaps(l) && validClock(l.Clock) && l.Identity != nil && l.Clock.(*entry.LamportClock).ID == l.Identity.PublicKey && l.Identity.Provider != nil && l.Identity.Signatures != nil && l.SortFn != nil && l.AccessController != nil && validAnyIO(l.io) && l.Storage != nil
 
 //@ guarded IPFSLog.Entries by IPFSLog.lock
 //@ guarded IPFSLog.heads by IPFSLog.lock
@@ -73,7 +73,9 @@ package ipfslog
 //@     loopfresh
 
 //@ func (*IPFSLog).values
-//@   requires l != nil && validEntries(l.Entries) && l.SortFn != nil && (l.heads == nil || validEntries(l.heads))
+//@   requires l != nil && l.SortFn != nil
+//@   requires validEntries(l.Entries)
+//@   requires l.heads == nil || validEntries(l.heads)
 //@   lockrequires onlyLogLockHeld(l)
 //@   ensures validEntries(result) && fresh(result) && fresh(om(result).values)
 //@   ensures [values-are-log-entries] forall k string :: has(om(result).values, k) ==> inMap(l.heads, om(result).values[k]) || inMap(l.Entries, om(result).values[k])
@@ -202,7 +204,7 @@ package ipfslog
 //@     invariant len(hashes) == $k && off(hashes) == 0 && (hashes == nil || fresh(hashes)) && validSlice(stack)
 
 //@ func (*IPFSLog).SetIdentity
-//@   requires logInv(l) && identity != nil
+//@   requires logInv(l) && identity != nil && identity.Provider != nil && identity.Signatures != nil
 //@   lockrequires noLocksHeld()
 //@   modifies l.Identity, l.Clock
 //@   ensures logInv(l) && l.Identity == identity
@@ -278,6 +280,7 @@ package ipfslog
 //@ define validLogOptions(o *iface.LogOptions) = (o.Entries == nil || validEntries(o.Entries)) && validSlice(o.Heads) && (o.Clock == nil || validClock(o.Clock)) && (o.IO == nil || validAnyIO(o.IO))
 //@ func NewLog
 //@   requires options == nil || validLogOptions(options)
+//@   requires identity == nil || (identity.Provider != nil && identity.Signatures != nil)
 //@   modifies fields(options)
 //@   ensures services == nil || identity == nil ==> err != nil
 //@   ensures [new-log-establishes-the-invariant] err == nil ==> result0 != nil && fresh(result0) && logInv(result0) && result0.Identity == identity
@@ -293,3 +296,40 @@ package ipfslog
 //@     invariant isOM(next) && fresh(next) && fresh(om(next).values) && freshKeys(om(next)) && options != nil && validEntries(options.Entries) && validEntry(e)
 //@     lockinvariant held[om(next).lock] == 0
 //@     loopmodifies om(next).keys, mapof(om(next).values)
+
+// ---- Join (C01, C02, C05, C06, C14, C16) ----
+// sepLogs: two distinct logs do not share their index maps
+//@ define sepLogs(a *IPFSLog, b *IPFSLog) = om(a.Entries) != om(b.Entries) && om(a.Entries) != om(b.heads) && om(a.Entries) != om(b.Next) && om(a.heads) != om(b.Entries) && om(a.heads) != om(b.heads) && om(a.heads) != om(b.Next) && om(a.Next) != om(b.Entries) && om(a.Next) != om(b.heads) && om(a.Next) != om(b.Next) && om(a.Entries).values != om(b.Entries).values && om(a.Entries).values != om(b.heads).values && om(a.Entries).values != om(b.Next).values && om(a.heads).values != om(b.Entries).values && om(a.heads).values != om(b.heads).values && om(a.heads).values != om(b.Next).values && om(a.Next).values != om(b.Entries).values && om(a.Next).values != om(b.heads).values && om(a.Next).values != om(b.Next).values
+//@ define otherOK(l *IPFSLog, o iface.IPFSLog) = typeis(o, "*IPFSLog") && (o.(*IPFSLog) == l || (logInv(o.(*IPFSLog)) && sepLogs(l, o.(*IPFSLog))))
+
+//@ func (*IPFSLog).Join
+//@   requires l == nil || logInv(l)
+//@   requires otherLog == nil || l == nil || otherOK(l, otherLog)
+//@   lockrequires noLocksHeld()
+//@   flag go forkjoin
+//@   modifies l.Clock, l.heads, l.Entries, om(l.Entries).keys, mapof(om(l.Entries).values), om(l.Next).keys, mapof(om(l.Next).values)
+//@   ensures [join-rejects-missing-arguments] otherLog == nil || l == nil ==> err != nil
+//@   ensures [join-preserves-the-log-invariant] l != nil ==> logInv(l)
+//@   ensures [size-bounded-join-keeps-at-most-size-entries] err == nil && size >= 0 && otherLog != nil && otherLog.(*IPFSLog) != l && l.ID == otherLog.(*IPFSLog).ID ==> len(om(l.Entries).keys) <= size
+//@   ensures [every-head-is-an-entry-after-a-bounded-join] err == nil && size >= 0 && otherLog != nil && otherLog.(*IPFSLog) != l && l.ID == otherLog.(*IPFSLog).ID ==> forall k string :: has(om(l.heads).values, k) ==> has(om(l.Entries).values, k)
+//@   replay joinsize
+//@   loop 0
+//@     invariant validEntries(newItems) && fresh(newItems)
+//@     loopfresh
+//@   loop 1
+//@     invariant validEntries(newItems) && fresh(newItems) && fresh(om(newItems).values) && freshKeys(om(newItems))
+//@     invariant validEntries(l.Entries) && isOM(l.Next) && sepMaps(l)
+//@     loopmodifies om(l.Next).keys, mapof(om(l.Next).values), om(l.Entries).keys, mapof(om(l.Entries).values)
+//@   loop 2
+//@     invariant validEntries(newItems) && fresh(newItems) && fresh(om(newItems).values) && freshKeys(om(newItems))
+//@     invariant validEntries(l.Entries) && isOM(l.Next) && sepMaps(l) && validEntry(e)
+//@     loopmodifies om(l.Next).keys, mapof(om(l.Next).values), om(l.Entries).keys, mapof(om(l.Entries).values)
+//@   loop 3
+//@     invariant fresh(nextsFromNewItems)
+//@   loop 4
+//@     invariant fresh(nextsFromNewItems) && validEntry(e)
+//@   loop 5
+//@     invariant mergedHeads == nil || fresh(mergedHeads)
+//@     invariant forall i int :: 0 <= i && i < $k ==> mergedHeads[i] == nil || validEntry(mergedHeads[i])
+//@     invariant forall i int :: $k <= i && i < len(mergedHeads) ==> validEntry(mergedHeads[i])
+//@     loopfresh
